@@ -50,8 +50,18 @@ impl PartialEq for DFA {
             inputs: other_inputs,
             subdfas: _,
         } = other;
+        // Transitions refer to inputs by their position in the pool and `Hash` walks both in order,
+        // so equality has to be order-sensitive as well: IndexMap/IndexSet's own `==` ignores order,
+        // which made two automata with permuted inputs equal although they hash differently.
         self_starting_state == other_starting_state
-            && self_transitions == other_transitions
+            && self_transitions.len() == other_transitions.len()
+            && self_transitions.iter().zip(other_transitions.iter()).all(
+                |((self_from, self_tos), (other_from, other_tos))| {
+                    self_from == other_from
+                        && self_tos.len() == other_tos.len()
+                        && self_tos.iter().eq(other_tos.iter())
+                },
+            )
             && self_accepting_states == other_accepting_states
             && self_inputs == other_inputs
     }
@@ -196,9 +206,17 @@ impl Inp {
     }
 }
 
-#[derive(Debug, Clone, Default, PartialEq, Eq)]
+#[derive(Debug, Clone, Default, Eq)]
 pub struct InpInternPool {
     store: IndexSet<Inp>,
+}
+
+// An input's id is its position in the pool, so two pools are the same only if they hold the same
+// inputs in the same order (IndexSet's own `==` ignores order, unlike the `Hash` impl below).
+impl PartialEq for InpInternPool {
+    fn eq(&self, other: &Self) -> bool {
+        self.store.len() == other.store.len() && self.store.iter().eq(other.store.iter())
+    }
 }
 
 impl std::hash::Hash for InpInternPool {
